@@ -11,6 +11,7 @@ mod exch_run;
 mod gen;
 mod props;
 mod refmodel;
+mod sr;
 
 use std::time::Instant;
 
